@@ -1,5 +1,6 @@
 import NetVerif.Driver.Util
 import NetVerif.Model.QuicStream
+import NetVerif.Model.QuicMonitor
 /-! Line-protocol step function for the QUIC stream state-machine model
 (tie "sm" of C19 / C20 / C32).  One result line per op, carrying the complete
 model state of the stream touched and of the connection-level counters. -/
@@ -277,5 +278,62 @@ def step (sto : Option St) (line : String) : Option St × String :=
         | none => (sto, "bad-op")
       | none => (sto, "bad-op")
     | _ => (sto, "bad-op")
+
+end NetVerif.Driver.QuicStreamStep
+
+/-! ### monitor lines (`ev ...`) of the "net" tie -/
+namespace NetVerif.Driver.QuicStreamStep
+open NetVerif.Driver NetVerif.Model.QuicMonitor
+
+def parseEv (t : List String) : Option Ev :=
+  match t with
+  | ["init", s, c, w] => do pure (.init (← parseNat s) (← parseInt c) (← parseInt w))
+  | ["tx", s, "stream", id, off, len, fin] =>
+    do pure (.txStream (← parseNat s) (← parseInt id) (← parseInt off) (← parseInt len) (fin == "1"))
+  | ["tx", s, "maxdata", v] => do pure (.txMaxData (← parseNat s) (← parseInt v))
+  | ["tx", s, "maxsd", id, v] => do pure (.txMaxSD (← parseNat s) (← parseInt id) (← parseInt v))
+  | ["tx", s, "reset", id, f] => do pure (.txReset (← parseNat s) (← parseInt id) (← parseInt f))
+  | ["tx", s, "close", c] => do pure (.txClose (← parseNat s) (← parseInt c))
+  | ["rx", s, "stream", id, off, len, fin] =>
+    do pure (.rxStream (← parseNat s) (← parseInt id) (← parseInt off) (← parseInt len) (fin == "1"))
+  | ["rx", s, "maxdata", v] => do pure (.rxMaxData (← parseNat s) (← parseInt v))
+  | ["rx", s, "maxsd", id, v] => do pure (.rxMaxSD (← parseNat s) (← parseInt id) (← parseInt v))
+  | ["rx", s, "reset", id, f] => do pure (.rxReset (← parseNat s) (← parseInt id) (← parseInt f))
+  | ["write", s, id, hex] => do pure (.write (← parseNat s) (← parseInt id) (← parseBytes hex))
+  | ["wclose", s, id] => do pure (.wclose (← parseNat s) (← parseInt id))
+  | ["closeread", s, id] => do pure (.closeread (← parseNat s) (← parseInt id))
+  | ["read", s, id, hex] => do pure (.read (← parseNat s) (← parseInt id) (← parseBytes hex))
+  | ["eof", s, id] => do pure (.eof (← parseNat s) (← parseInt id))
+  | ["readerr", s, id] => do pure (.readerr (← parseNat s) (← parseInt id))
+  | ["closeok", s, id] => do pure (.closeok (← parseNat s) (← parseInt id))
+  | ["fin"] => some .fin
+  | _ => none
+
+def sideOk : Ev → Bool
+  | .init s _ _ | .txStream s _ _ _ _ | .txMaxData s _ | .txMaxSD s _ _ | .txReset s _ _ | .txClose s _
+  | .rxStream s _ _ _ _ | .rxMaxData s _ | .rxMaxSD s _ _ | .rxReset s _ _ | .write s _ _ | .wclose s _
+  | .closeread s _ | .read s _ _ | .eof s _ | .readerr s _ | .closeok s _ => s ≤ 1
+  | .fin => true
+
+structure Both where
+  sm : Option St := none
+  hist : List Ev := []
+
+def initBoth : Both := {}
+
+/-- `prop` = 19, 20 or 32 selects the monitor clauses. -/
+def stepBoth (prop : Nat) (b : Both) (line : String) : Both × String :=
+  match tokens line with
+  | ["ev", "begin"] => ({ b with hist := [] }, "ok")
+  | "ev" :: rest =>
+    match parseEv rest with
+    | some e =>
+      if !sideOk e then (b, "bad-op") else
+      if okEv prop b.hist e then ({ b with hist := b.hist ++ [e] }, "ok")
+      else ({ b with hist := b.hist ++ [e] }, "reject " ++ (rest.take 3 |> " ".intercalate))
+    | none => (b, "bad-op")
+  | _ =>
+    let (sm, out) := step b.sm line
+    ({ b with sm := sm }, out)
 
 end NetVerif.Driver.QuicStreamStep
